@@ -17,6 +17,13 @@
 //   pool2  two-use histories acquire → fill/decode → Process() → release → re-acquire → fill/decode →
 //          Process(): every field (exported or not, through pointers, by reflection) of the pack equals
 //          that of a pack which only had the second use.
+//   route  every ordered pair of pack types (A, B): create A, use, release, create B three times — B has its
+//          own concrete type, is clean and reads like a never-used pack; random create/use/release histories
+//          with several packs of a few types alive.  A panic of CreatePack/ClosePack is a property failure.
+//   paramkv key=value texts with blanks/tabs around '=' and the separator (" ", ";", "&"), repeated keys,
+//          prefix/suffix/case variants of the key, empty values: ToStringStr leaves no token of the key with
+//          another value (direct), equals an independent reference and the model; the same texts as
+//          semicolon-separated connection strings through Process().
 //   mask   connection strings from the key=value grammar (1 … 200 tokens, password first / middle / last /
 //          at positions 19, 20, 21, repeated, very long values) (and near-misses): after Process() of an
 //          SQL / SQL-param / DBC pack of the Go and PHP families no password token keeps its value;
@@ -38,6 +45,7 @@ import (
 
 	gio "github.com/whatap/golib/io"
 	"github.com/whatap/golib/lang/pack/udp"
+	"github.com/whatap/golib/util/paramtext"
 	"github.com/whatap/golib/util/stringutil"
 	"verif/harness/vh"
 )
@@ -47,6 +55,72 @@ var (
 	rep *vh.Report
 	rng *vh.Rng
 )
+
+// ---------------------------------------------------------------- calling the implementation
+
+// Every call into the implementation goes through vh.Guard.  A panic of CreatePack / ClosePack /
+// a constructor on an input inside the property's quantifier is a failure of the property, reported
+// with the history of operations that led to it; it never ends the harness.
+
+var repMu sync.Mutex // rep is also written from the goroutines of the pool stage
+
+func failSafe(kind, key, summary string, replay interface{}) {
+	repMu.Lock()
+	defer repMu.Unlock()
+	rep.Fail(kind, key, summary, replay)
+}
+
+func histReplay(stage, tname string, hist []string) map[string]interface{} {
+	h := append([]string{}, hist...)
+	if len(h) > 60 {
+		h = h[len(h)-60:]
+	}
+	return map[string]interface{}{"stage": stage, "type": tname, "history": h}
+}
+
+// implCreate: udp.CreatePack under a guard; the pack must exist and have the type's concrete type
+func implCreate(stage string, pt *ptype, ver int32, hist []string) (udp.UdpPack, bool) {
+	var p udp.UdpPack
+	o := vh.Guard(func() { p = udp.CreatePack(pt.code, ver) })
+	h := append(append([]string{}, hist...), fmt.Sprintf("CreatePack(%s, %d)", pt.name, ver))
+	switch {
+	case !o.OK():
+		failSafe("property", "CreatePack:"+pt.name+":panic",
+			fmt.Sprintf("CreatePack(%d /*%s*/, %d) panics: %s", pt.code, pt.name, ver, vh.Clip(o.Panic, 200)), histReplay(stage, pt.name, h))
+		return nil, false
+	case p == nil || reflect.ValueOf(p).IsNil():
+		failSafe("property", "CreatePack:"+pt.name+":nil",
+			fmt.Sprintf("CreatePack(%d /*%s*/, %d) returns no pack", pt.code, pt.name, ver), histReplay(stage, pt.name, h))
+		return nil, false
+	case reflect.TypeOf(p) != reflect.TypeOf(pt.zero()):
+		failSafe("property", "CreatePack:"+pt.name+":wrong-type",
+			fmt.Sprintf("CreatePack(%d /*%s*/, %d) returns a %s", pt.code, pt.name, ver, reflect.TypeOf(p)), histReplay(stage, pt.name, h))
+		return nil, false
+	}
+	return p, true
+}
+
+// implClose: udp.ClosePack under a guard
+func implClose(stage string, pt *ptype, p udp.UdpPack, hist []string) bool {
+	if p == nil {
+		return false
+	}
+	o := vh.Guard(func() { udp.ClosePack(p) })
+	if !o.OK() {
+		h := append(append([]string{}, hist...), fmt.Sprintf("ClosePack(%s)", pt.name))
+		failSafe("property", "ClosePack:"+pt.name+":panic", fmt.Sprintf("ClosePack(%s) panics: %s", pt.name, vh.Clip(o.Panic, 200)), histReplay(stage, pt.name, h))
+		return false
+	}
+	return true
+}
+
+// runStage: a panic of the harness's own code in a stage is reported and the other stages still run
+func runStage(name string, f func()) {
+	o := vh.Guard(f)
+	if !o.OK() {
+		failSafe("property", "stage:"+name+":panic", "stage "+name+" stopped by a panic: "+vh.Clip(o.Panic, 300), map[string]interface{}{"stage": name})
+	}
+}
 
 // ---------------------------------------------------------------- versions
 
@@ -237,7 +311,7 @@ func genInt(r *vh.Rng, bits int) int64 {
 // genRec: canonical values for every wire-comparable field except Ver / Flush
 func genRec(r *vh.Rng, pt *ptype) map[string]string {
 	rec := map[string]string{}
-	p := pt.mk()
+	p := pt.new()
 	for _, f := range fieldsOf(p) {
 		if f.name == "Ver" || f.name == "Flush" || !comparable(f.typ) {
 			continue
@@ -292,7 +366,7 @@ func genRec(r *vh.Rng, pt *ptype) map[string]string {
 
 func recString(pt *ptype, rec map[string]string) string {
 	var parts []string
-	for _, f := range fieldsOf(pt.mk()) {
+	for _, f := range fieldsOf(pt.zero()) {
 		if v, ok := rec[f.name]; ok {
 			parts = append(parts, f.name+"="+v)
 		}
@@ -308,7 +382,7 @@ func recString(pt *ptype, rec map[string]string) string {
 func goWrite(pt *ptype, ver int32, rec map[string]string) ([]byte, vh.Outcome) {
 	var b []byte
 	o := vh.Guard(func() {
-		p := pt.mk()
+		p := pt.new()
 		p.SetVersion(ver)
 		applyRec(p, rec)
 		b = udp.ToBytesPack(p)
@@ -356,7 +430,7 @@ func carriedGo(pt *ptype, ver int32) map[string]bool {
 		return v.(map[string]bool)
 	}
 	base := map[string]string{}
-	fs := fieldsOf(pt.mk())
+	fs := fieldsOf(pt.zero())
 	for _, f := range fs {
 		if f.name == "Ver" || f.name == "Flush" {
 			continue
@@ -485,8 +559,8 @@ func (c *rtCase) run() {
 }
 
 func pt_new(pt *ptype, ver int32) udp.UdpPack {
-	p := pt.mk()
-	p.SetVersion(ver)
+	p := pt.new()
+	vh.Guard(func() { p.SetVersion(ver) })
 	return p
 }
 
@@ -525,7 +599,10 @@ func stageRT(cases []*rtCase) {
 		go func() {
 			defer wg.Done()
 			for c := range ch {
-				c.run()
+				cc := c
+				if o := vh.Guard(func() { cc.run() }); !o.OK() {
+					cc.wOut = o
+				}
 			}
 		}()
 	}
@@ -579,10 +656,10 @@ func stageRT(cases []*rtCase) {
 		if !c.created {
 			rep.Count("rt.createpack.nil")
 			if c.cPanic != "" {
-				rep.Fail("property", c.pt.name+":CreatePack:panic",
+				rep.Fail("property", "CreatePack:"+c.pt.name+":panic",
 					fmt.Sprintf("CreatePack(%d, ver) for %s panics (%s), so ToPack/ReadPack cannot read what its Write produced", c.pt.code, c.pt.name, vh.Clip(c.cPanic, 160)), c.replay())
 			} else {
-				rep.Fail("property", c.pt.name+":CreatePack:nil",
+				rep.Fail("property", "CreatePack:"+c.pt.name+":nil",
 					fmt.Sprintf("CreatePack(%d, ver) returns no pack for %s, so ToPack/ReadPack cannot read what its Write produced", c.pt.code, c.pt.name), c.replay())
 			}
 		}
@@ -694,7 +771,7 @@ func diffRead(c *rtCase, ans string) string {
 	}
 	m := parseRec(parts[1])
 	var d []string
-	for _, f := range fieldsOf(c.pt.mk()) {
+	for _, f := range fieldsOf(c.pt.zero()) {
 		if !comparable(f.typ) {
 			continue
 		}
@@ -737,7 +814,7 @@ func searchAround1(c *rtCase) *rtCase {
 	}
 	sort.Strings(names)
 	for _, f := range names {
-		fr := fieldByName(c.pt.mk(), f)
+		fr := fieldByName(c.pt.zero(), f)
 		var alts []string
 		switch fr.typ.Kind() {
 		case reflect.Int16:
@@ -770,7 +847,7 @@ func searchAround1(c *rtCase) *rtCase {
 // fullRec: a complete record (zero values) with some fields set
 func fullRec(pt *ptype, set map[string]string) map[string]string {
 	rec := map[string]string{}
-	for _, f := range fieldsOf(pt.mk()) {
+	for _, f := range fieldsOf(pt.zero()) {
 		if f.name == "Ver" || f.name == "Flush" || !comparable(f.typ) {
 			continue
 		}
@@ -836,7 +913,10 @@ func stageToPack(cases []*rtCase) {
 		}
 		n++
 		// Read followed by Process on a fresh pack
-		q := udp.CreatePack(c.pt.code, c.ver)
+		q, ok := implCreate("topack", c.pt, c.ver, []string{"after the round trips of stage rt"})
+		if !ok {
+			continue
+		}
 		in := gio.NewDataInputX(c.bytes)
 		var o1, o2 vh.Outcome
 		o1 = vh.Guard(func() { q.Read(in); q.Process() })
@@ -861,8 +941,8 @@ func stageToPack(cases []*rtCase) {
 			lines = append(lines, fmt.Sprintf("D %d %s", c.ver, d[1:]))
 			pends = append(pends, pend{c, b["Dbc"]})
 		}
-		udp.ClosePack(q)
-		udp.ClosePack(tp)
+		implClose("topack", c.pt, q, nil)
+		implClose("topack", c.pt, tp, nil)
 	}
 	if len(lines) > 0 {
 		outs, err := vh.RunDriver(env.Driver, lines)
@@ -925,10 +1005,9 @@ func poolHistory(pt *ptype, consts poolConsts, r *vh.Rng, rounds int, who string
 	var hist []string
 	for n := 1; n <= rounds; n++ {
 		ver := int32(r.PickInt([]int{10101, 10110, 20104, 30103, 40001, 50100, 50101, 7}))
-		var p udp.UdpPack
-		o := vh.Guard(func() { p = udp.CreatePack(pt.code, ver) })
-		if !o.OK() || p == nil || reflect.ValueOf(p).IsNil() {
-			return // reported by stage rt under <type>:CreatePack:nil
+		p, ok := implCreate("pool", pt, ver, hist)
+		if !ok {
+			return
 		}
 		evals++
 		got := canonMap(p, true)
@@ -1014,7 +1093,6 @@ func stagePool() {
 		rep.Case(fmt.Sprintf("pool sequential %s rounds=%d", pt.name, rounds), ev > 1)
 	}
 	// 8 goroutines, every one running histories on every type
-	var mu sync.Mutex
 	var wg sync.WaitGroup
 	for g := 0; g < 8; g++ {
 		wg.Add(1)
@@ -1024,12 +1102,12 @@ func stagePool() {
 			for i := range ptypes {
 				pt := &ptypes[(i+g)%len(ptypes)]
 				fs, ev, reused := poolHistory(pt, consts[pt.name], r, rounds, fmt.Sprintf("goroutine-%d", g))
-				mu.Lock()
+				repMu.Lock()
 				report(fs)
 				rep.CountN("pool.concurrent.acquires", ev)
 				rep.CountN("pool.concurrent.reused_after_release", reused)
 				rep.Case(fmt.Sprintf("pool goroutine %d %s rounds=%d", g, pt.name, rounds), ev > 1)
-				mu.Unlock()
+				repMu.Unlock()
 			}
 		}(g)
 	}
@@ -1073,7 +1151,7 @@ func stageProcess() {
 			if r.Chance(20) {
 				ver = int32(r.Range(-3, 60000))
 			}
-			p := pt.mk()
+			p := pt.new()
 			p.SetVersion(ver)
 			rec := genUseRec(r, pt)
 			for _, f := range fieldsOf(p) { // derived booleans start either way
@@ -1117,7 +1195,7 @@ func stageProcess() {
 		}
 		m := parseRec(outs[i][3:])
 		var d []string
-		for _, f := range fieldsOf(j.pt.mk()) {
+		for _, f := range fieldsOf(j.pt.zero()) {
 			if sortedT(m[f.name]) != sortedT(j.post[f.name]) {
 				d = append(d, fmt.Sprintf("%s: impl %s model %s", f.name, vh.Clip(j.post[f.name], 80), vh.Clip(m[f.name], 80)))
 			}
@@ -1140,7 +1218,7 @@ var useVers = []int32{10101, 10102, 10105, 10107, 10108, 10110, 20101, 20102, 20
 // empty, often numeric text (so that the derived fields of Process() are set in one use and not in the other)
 func genUseRec(r *vh.Rng, pt *ptype) map[string]string {
 	rec := genRec(r, pt)
-	for _, f := range fieldsOf(pt.mk()) {
+	for _, f := range fieldsOf(pt.zero()) {
 		if f.typ.Kind() != reflect.String {
 			continue
 		}
@@ -1233,24 +1311,26 @@ func diffsOf(q, ref udp.UdpPack) []fieldDiff {
 // made a new object).  Returns the differing fields (nil = fine), whether the pool handed the same
 // object back, and whether the history ran to the end.
 func twoUse(pt *ptype, u1, u2 use) (bad []fieldDiff, reused bool, ran bool) {
-	var p, q udp.UdpPack
-	if o := vh.Guard(func() { p = udp.CreatePack(pt.code, u1.ver) }); !o.OK() || p == nil || reflect.ValueOf(p).IsNil() {
+	hist := []string{fmt.Sprintf("use1(ver=%d, fill=%v)", u1.ver, u1.fill)}
+	p, ok := implCreate("pool2", pt, u1.ver, nil)
+	if !ok {
 		return nil, false, false
 	}
 	applyUse(pt, p, u1) // a panicking Process() (ill-formed Data) still leaves a used pack to release
 	addr := reflect.ValueOf(p).Pointer()
-	vh.Guard(func() { udp.ClosePack(p) })
+	implClose("pool2", pt, p, hist)
 	p = nil
-	if o := vh.Guard(func() { q = udp.CreatePack(pt.code, u2.ver) }); !o.OK() || q == nil {
+	q, ok := implCreate("pool2", pt, u2.ver, append(hist, "ClosePack"))
+	if !ok {
 		return nil, false, false
 	}
 	reused = reflect.ValueOf(q).Pointer() == addr
 	defer func() { vh.Guard(func() { udp.ClosePack(q) }) }()
-	refNew := pt.mk() // straight from the constructor
-	refNew.SetVersion(u2.ver)
-	refClr := pt.mk() // constructor, then Clear(): what a pooled pack must be equivalent to
-	refClr.Clear()
-	refClr.SetVersion(u2.ver)
+	refNew := pt_new(pt, u2.ver) // straight from the constructor
+	refClr := pt.new()            // constructor, then Clear(): what a pooled pack must be equivalent to
+	if o := vh.Guard(func() { refClr.Clear(); refClr.SetVersion(u2.ver) }); !o.OK() {
+		return []fieldDiff{{"Clear()", "panic: " + vh.Clip(o.Panic, 80), "no panic"}}, reused, true
+	}
 	pick := func() []fieldDiff {
 		dClr := diffsOf(q, refClr)
 		if len(dClr) == 0 {
@@ -1320,6 +1400,376 @@ func stagePool2() {
 			}
 			if len(bad) > 0 {
 				reportTwoUse(pt, u1, u2, bad, reused)
+			}
+		}
+	}
+}
+
+// ---------------------------------------------------------------- stage route: pools across types
+
+// cleanDiff: how a pack just obtained from CreatePack differs from a never-used pack (constructor +
+// Clear(), or the constructor alone); nil = it is one of the two
+func cleanDiff(pt *ptype, q udp.UdpPack, ver int32, then func(udp.UdpPack) vh.Outcome) []fieldDiff {
+	refNew := pt_new(pt, ver)
+	refClr := pt.new()
+	if o := vh.Guard(func() { refClr.Clear(); refClr.SetVersion(ver) }); !o.OK() {
+		return []fieldDiff{{"Clear()", "panic: " + vh.Clip(o.Panic, 80), "no panic"}}
+	}
+	if then != nil {
+		if !then(refNew).OK() || !then(refClr).OK() {
+			return nil // the use itself does not work on a fresh pack: not a pool matter
+		}
+	}
+	dClr := diffsOf(q, refClr)
+	if len(dClr) == 0 {
+		return nil
+	}
+	dNew := diffsOf(q, refNew)
+	if len(dNew) == 0 {
+		return nil
+	}
+	if len(dClr) <= len(dNew) {
+		return dClr
+	}
+	return dNew
+}
+
+func reportResidue(stage string, pt *ptype, ds []fieldDiff, what string, hist []string) {
+	for _, d := range ds {
+		top := d.path
+		if i := strings.Index(d.path, "."); i > 0 && !strings.HasPrefix(d.path, "AbstractPack.") {
+			top = d.path[:i]
+		}
+		failSafe("property", pt.name+":"+top+":residue",
+			fmt.Sprintf("%s %s differs on %s from a never-used pack: %s instead of %s", pt.name, what, d.path, vh.Clip(d.got, 100), vh.Clip(d.want, 100)),
+			histReplay(stage, pt.name, hist))
+	}
+}
+
+// checkCreated: a pack handed out by CreatePack is clean, and reading a writer's bytes into it gives
+// what reading them into a never-used pack gives
+func checkCreated(stage string, pt *ptype, q udp.UdpPack, ver int32, r *vh.Rng, hist []string) {
+	if ds := cleanDiff(pt, q, ver, nil); len(ds) > 0 {
+		reportResidue(stage, pt, ds, "from CreatePack", hist)
+		return
+	}
+	rec := genUseRec(r, pt)
+	b, o := goWrite(pt, ver, rec)
+	if !o.OK() {
+		return
+	}
+	read := func(p udp.UdpPack) vh.Outcome {
+		return vh.Guard(func() {
+			if pt.name == "UdpRelayPack" {
+				setCanon(p, fieldByName(p, "Len"), "i"+strconv.Itoa(len(b)))
+			}
+			p.Read(gio.NewDataInputX(b))
+		})
+	}
+	if o := read(q); !o.OK() {
+		failSafe("property", pt.name+":Read:panic", "Read of a writer's bytes into a pack from CreatePack panics: "+vh.Clip(o.Panic, 160), histReplay(stage, pt.name, hist))
+		return
+	}
+	if ds := cleanDiff(pt, q, ver, read); len(ds) > 0 {
+		reportResidue(stage, pt, ds, "from CreatePack, after reading a writer's bytes,", hist)
+	}
+}
+
+func useAndFill(pt *ptype, p udp.UdpPack, n int, r *vh.Rng) {
+	vh.Guard(func() { fillMarkers(p, n, r) })
+	if r.Chance(40) {
+		vh.Guard(func() { p.Process() })
+	}
+}
+
+// stageRoute: (1) for every ordered pair of pack types (A, B): create A, use it, release it, then create
+// B several times — every B must have B's concrete type, be clean and read like a never-used pack;
+// (2) random histories of create / use / release over all types with several packs alive.
+func stageRoute() {
+	r := rng.Fork()
+	n := 0
+	for i := range ptypes {
+		for j := range ptypes {
+			A, B := &ptypes[i], &ptypes[j]
+			verA, verB := useVers[r.Intn(len(useVers))], useVers[r.Intn(len(useVers))]
+			var hist []string
+			a, ok := implCreate("route", A, verA, hist)
+			if !ok {
+				continue
+			}
+			hist = append(hist, fmt.Sprintf("CreatePack(%s, %d)", A.name, verA), "fill with markers")
+			n++
+			useAndFill(A, a, n, r)
+			if !implClose("route", A, a, hist) {
+				continue
+			}
+			hist = append(hist, fmt.Sprintf("ClosePack(%s)", A.name))
+			var bs []udp.UdpPack
+			for k := 0; k < 3; k++ {
+				b, ok := implCreate("route", B, verB, hist)
+				hist = append(hist, fmt.Sprintf("CreatePack(%s, %d)", B.name, verB))
+				if !ok {
+					break
+				}
+				checkCreated("route", B, b, verB, r, hist)
+				bs = append(bs, b)
+			}
+			for _, b := range bs {
+				implClose("route", B, b, hist)
+			}
+			rep.Case(fmt.Sprintf("route %s→%s", A.name, B.name), true)
+			rep.Count("route.pairs")
+		}
+	}
+	// random histories
+	nh, steps := 8, 150
+	if env.Thorough {
+		nh, steps = 60, 400
+	}
+	for h := 0; h < nh; h++ {
+		type live struct {
+			pt *ptype
+			p  udp.UdpPack
+		}
+		var alive []live
+		var hist []string
+		focus := []*ptype{&ptypes[r.Intn(len(ptypes))], &ptypes[r.Intn(len(ptypes))], &ptypes[r.Intn(len(ptypes))]}
+		for st := 0; st < steps; st++ {
+			switch {
+			case len(alive) == 0 || (len(alive) < 6 && r.Chance(50)):
+				pt := focus[r.Intn(len(focus))] // few types: the same pools are hit again and again
+				if r.Chance(30) {
+					pt = &ptypes[r.Intn(len(ptypes))]
+				}
+				ver := useVers[r.Intn(len(useVers))]
+				p, ok := implCreate("route", pt, ver, hist)
+				hist = append(hist, fmt.Sprintf("CreatePack(%s, %d)", pt.name, ver))
+				if !ok {
+					continue
+				}
+				checkCreated("route", pt, p, ver, r, hist)
+				n++
+				useAndFill(pt, p, n, r)
+				hist = append(hist, "use")
+				alive = append(alive, live{pt, p})
+				rep.Count("route.history.creates")
+			default:
+				k := r.Intn(len(alive))
+				l := alive[k]
+				alive = append(alive[:k], alive[k+1:]...)
+				implClose("route", l.pt, l.p, hist)
+				hist = append(hist, fmt.Sprintf("ClosePack(%s)", l.pt.name))
+			}
+			if len(hist) > 80 {
+				hist = hist[len(hist)-80:]
+			}
+		}
+		for _, l := range alive {
+			implClose("route", l.pt, l.p, hist)
+		}
+		rep.Case(fmt.Sprintf("route history %d", h), true)
+	}
+}
+
+// ---------------------------------------------------------------- stage paramkv: key=value texts with white space
+
+// refToPair / refToStringStr: the intended behaviour of paramtext.ParamKV written down independently
+// (split at the separator; a token's key and value are the trimmed texts around its first '=';
+// the last token with a key gives the key's value; ToStringStr replaces the value of an existing key)
+func refToPair(tok string) (string, string) {
+	i := strings.Index(tok, "=")
+	if i < 0 {
+		return "", ""
+	}
+	return strings.TrimSpace(tok[:i]), strings.TrimSpace(tok[i+1:])
+}
+
+func refToStringStr(s, sep, key, val string) string {
+	toks := strings.Split(s, sep)
+	m := map[string]string{}
+	for _, t := range toks {
+		if k, v := refToPair(t); k != "" {
+			m[k] = v
+		}
+	}
+	if _, ok := m[key]; ok {
+		m[key] = val
+	}
+	out := make([]string, len(toks))
+	for i, t := range toks {
+		if k, _ := refToPair(t); k != "" {
+			out[i] = k + "=" + m[k]
+		} else {
+			out[i] = t
+		}
+	}
+	return strings.Join(out, sep)
+}
+
+var kvKeys = []string{"password", "Password", "PASSWORD", "pass", "passwor", "password2", "xpassword", "pwd", "user", "k", "word", "ssword"}
+var kvWs = []string{"", "", "", " ", "\t", "  ", " \t", "\t "}
+
+type kvText struct {
+	s       string
+	sep     string
+	key     string
+	secrets []string // values of the tokens whose trimmed key is `key`
+	shape   string
+}
+
+// genKvText: tokens `ws key ws = ws value ws` joined by sep; repeated keys, keys that are prefixes /
+// suffixes / case variants of the key, empty values
+func genKvText(r *vh.Rng, sep string, wsSet []string) kvText {
+	key := "password"
+	if r.Chance(25) {
+		key = r.PickStr(kvKeys)
+	}
+	n := r.PickInt([]int{1, 2, 3, 3, 4, 6, 9})
+	var toks []string
+	var secrets []string
+	has := false
+	ws := func() string { return r.PickStr(wsSet) }
+	for i := 0; i < n; i++ {
+		k := r.PickStr(kvKeys)
+		if (i == n-1 && !has) || r.Chance(25) {
+			k = key
+		}
+		v := genPlain(r, 8)
+		if strings.ContainsAny(v, " ;&=\t") {
+			v = "v"
+		}
+		if r.Chance(15) {
+			v = ""
+		}
+		if k == key {
+			has = true
+			secretN++
+			v = fmt.Sprintf("PW%dx", secretN)
+			if r.Chance(10) {
+				v = ""
+			} else {
+				secrets = append(secrets, v)
+			}
+		}
+		toks = append(toks, ws()+k+ws()+"="+ws()+v+ws())
+	}
+	shape := "sep" + map[string]string{" ": "blank", ";": "semicolon", "&": "amp", "mix": "mixed"}[sep]
+	if sep == "mix" {
+		var b strings.Builder
+		for i, t := range toks {
+			if i > 0 {
+				b.WriteString(r.PickStr([]string{" ", ";"}))
+			}
+			b.WriteString(t)
+		}
+		return kvText{b.String(), sep, key, secrets, shape}
+	}
+	return kvText{strings.Join(toks, sep), sep, key, secrets, shape}
+}
+
+func stageParamKV() {
+	n := 1200
+	if env.Thorough {
+		n = 15000
+	}
+	r := rng.Fork()
+	type job struct {
+		t    kvText
+		val  string
+		impl string
+		out  vh.Outcome
+	}
+	var jobs []job
+	var lines []string
+	for i := 0; i < n; i++ {
+		sep := r.PickStr([]string{";", "&", " ", ";", "&"})
+		wsSet := kvWs
+		if sep == " " && r.Chance(50) {
+			wsSet = []string{"", "", "\t"}
+		}
+		t := genKvText(r, sep, wsSet)
+		val := r.PickStr([]string{"#", "#", "***", ""})
+		var out string
+		o := vh.Guard(func() { out = paramtext.NewParamKVSeperate(t.s, t.sep, "=").ToStringStr(t.key, val) })
+		jobs = append(jobs, job{t, val, out, o})
+		lines = append(lines, fmt.Sprintf("M %d %s %s %s", t.sep[0], vh.Hex([]byte(t.key)), vh.Hex([]byte(val)), vh.Hex([]byte(t.s))))
+	}
+	outs, err := vh.RunDriver(env.Driver, lines)
+	if err != nil {
+		vh.Die("%v", err)
+	}
+	kvExplained := false
+	var mismatches []int
+	for i, j := range jobs {
+		rep.Case("kv "+j.t.sep+" "+j.t.key+" "+j.t.s, strings.Contains(j.t.s, "="))
+		rep.Count("paramkv." + j.t.shape)
+		replay := map[string]interface{}{"stage": "paramkv", "text": vh.Hex([]byte(j.t.s)), "sep": j.t.sep, "key": j.t.key, "val": j.val}
+		if !j.out.OK() {
+			rep.Fail("property", "ParamKV:ToStringStr:panic", fmt.Sprintf("NewParamKVSeperate(%q, %q, \"=\").ToStringStr(%q, %q) panics: %s", vh.Clip(j.t.s, 120), j.t.sep, j.t.key, j.val, vh.Clip(j.out.Panic, 100)), replay)
+			continue
+		}
+		ref := refToStringStr(j.t.s, j.t.sep, j.t.key, j.val)
+		// direct property: no token of the result has the key with another value; a value of the key that the
+		// intended behaviour removes is not in the result
+		bad := ""
+		for _, tok := range strings.Split(j.impl, j.t.sep) {
+			if k, v := refToPair(tok); k == j.t.key && v != j.val {
+				bad = fmt.Sprintf("token %q keeps its value", tok)
+			}
+		}
+		for _, sec := range j.t.secrets {
+			if strings.Contains(j.impl, sec) && !strings.Contains(ref, sec) {
+				bad = fmt.Sprintf("the value %q of the key survives", sec)
+			}
+		}
+		if bad != "" {
+			kvExplained = true
+			rep.Fail("property", "ParamKV:ToStringStr:value-kept",
+				fmt.Sprintf("NewParamKVSeperate(%q, %q, \"=\").ToStringStr(%q, %q) = %q: %s", vh.Clip(j.t.s, 160), j.t.sep, j.t.key, j.val, vh.Clip(j.impl, 160), bad), replay)
+			continue
+		}
+		model := string(vh.UnHex(outs[i]))
+		if j.impl != ref || j.impl != model {
+			mismatches = append(mismatches, i)
+		}
+	}
+	for _, i := range mismatches { // differences without a failing input (unless one was exhibited above)
+		j := jobs[i]
+		ref := refToStringStr(j.t.s, j.t.sep, j.t.key, j.val)
+		model := string(vh.UnHex(outs[i]))
+		replay := map[string]interface{}{"stage": "paramkv", "text": vh.Hex([]byte(j.t.s)), "sep": j.t.sep, "key": j.t.key, "val": j.val}
+		if !kvExplained {
+			rep.Fail("correspondence", "ParamKV:ToStringStr:text",
+				fmt.Sprintf("ToStringStr(%q, %q) on %q with separator %q: impl %q, reference %q, model %q", j.t.key, j.val, vh.Clip(j.t.s, 120), j.t.sep, vh.Clip(j.impl, 120), vh.Clip(ref, 120), vh.Clip(model, 120)), replay)
+		}
+	}
+	// the same texts as connection strings: tokens with tabs around '=' and around the tokens (TrimSpace removes
+	// them, so these are key=value tokens of the grammar after trimming), separated by ';', ' ' or both; after
+	// Process() of a Go / PHP pack no password value is left.  (With *blanks* inside the tokens the blank pass
+	// cuts the tokens apart and the unchanged code keeps values: outside the property's grammar, not asserted.)
+	m := n / 2
+	tn := []string{"UdpTxSqlPack", "UdpTxSqlParamPack", "UdpTxDbcPack"}
+	for i := 0; i < m; i++ {
+		t := genKvText(r, r.PickStr([]string{";", ";", " ", "mix"}), []string{"", "", "\t", "\t\t", "\n", "\t\r"})
+		if t.key != "password" {
+			continue
+		}
+		for _, ver := range []int32{50100, 10110} {
+			tname := tn[i%3]
+			out, o := processDbc(tname, ver, t.s)
+			rep.Case(fmt.Sprintf("kvdbc %s %d %s", tname, ver, t.s), true)
+			rep.Count("paramkv.dbc")
+			replay := map[string]interface{}{"stage": "mask", "type": tname, "ver": ver, "dbc": vh.Hex([]byte(t.s)), "grammar": true, "secrets": t.secrets}
+			if !o.OK() {
+				rep.Fail("property", "SqlDbcPacks:Process:panic", fmt.Sprintf("%s.Process() at version %d panics on %q: %s", tname, ver, vh.Clip(t.s, 120), vh.Clip(o.Panic, 100)), replay)
+				continue
+			}
+			for _, sec := range t.secrets {
+				if strings.Contains(out, sec) {
+					rep.Fail("property", "SqlDbcPacks:Process:password",
+						fmt.Sprintf("%s.Process() at version %d turns Dbc %q into %q, which still has the password value %q", tname, ver, vh.Clip(t.s, 160), vh.Clip(out, 160), sec), replay)
+					break
+				}
 			}
 		}
 	}
@@ -1622,6 +2072,15 @@ func maskSearch(tname string, s string) bool {
 }
 
 func maskSearch1(tname string, s string) bool {
+	// white space that TrimSpace removes around '=' and around the tokens (tabs: the blank pass does not cut them)
+	for _, form := range []string{"password\t=\t%s", "password\t=%s", "password=\t%s", "\tpassword=%s\t", "a=1;password\t=\t%s", "a=1 password\t=%s;b=2", "a=1;\tpassword\t=%s\t;b=2"} {
+		cs := connStr{fmt.Sprintf(form, "PWsearch"), true, []string{"PWsearch"}, "search-ws"}
+		for _, ver := range []int32{50100, 10110} {
+			if _, _, bad := maskProperty(tname, ver, cs); bad {
+				return true
+			}
+		}
+	}
 	// long grammar strings: a defect that depends on the number of tokens (or on the length of the
 	// string) shows with the same tokens repeated
 	ntoks := len(strings.FieldsFunc(s, func(c rune) bool { return c == ' ' || c == ';' }))
@@ -1854,22 +2313,29 @@ func stageNum() {
 func knownReplays() {
 	// K1: UdpTxMessagePack caps Hash and Desc although they are not transaction-start fields
 	{
-		p := udp.NewUdpTxMessagePack()
-		p.Hash = strings.Repeat("h", 2049)
-		p.Desc = strings.Repeat("d", 32769)
-		q := udp.NewUdpTxMessagePack()
-		q.Read(gio.NewDataInputX(udp.ToBytesPack(p)))
-		still := len(q.Hash) == 2048 || len(q.Desc) == 32768
-		rep.KnownReplay("UdpTxMessagePack:cap", still, fmt.Sprintf("Hash of 2049 bytes reads back with %d, Desc of 32769 bytes with %d", len(q.Hash), len(q.Desc)))
+		still, what := false, ""
+		o := vh.Guard(func() {
+			p := udp.NewUdpTxMessagePack()
+			p.Hash = strings.Repeat("h", 2049)
+			p.Desc = strings.Repeat("d", 32769)
+			q := udp.NewUdpTxMessagePack()
+			q.Read(gio.NewDataInputX(udp.ToBytesPack(p)))
+			still = len(q.Hash) == 2048 || len(q.Desc) == 32768
+			what = fmt.Sprintf("Hash of 2049 bytes reads back with %d, Desc of 32769 bytes with %d", len(q.Hash), len(q.Desc))
+		})
+		if !o.OK() {
+			still, what = true, "the replay panicked: "+o.Panic
+		}
+		rep.KnownReplay("UdpTxMessagePack:cap", still, what)
 	}
 	// K2: UdpRelayPack's payload length is not on the wire and ToPack has no way to supply it
 	{
-		p := udp.NewUdpRelayPack()
-		p.Data = []byte{1, 2, 3}
-		b := udp.ToBytesPack(p)
 		still := false
 		what := ""
 		o := vh.Guard(func() {
+			p := udp.NewUdpRelayPack()
+			p.Data = []byte{1, 2, 3}
+			b := udp.ToBytesPack(p)
 			q := udp.ToPack(udp.RELAY_PACK, udp.UDP_PACK_VERSION, b)
 			r := q.(*udp.UdpRelayPack)
 			still = len(r.Data) != 3
@@ -1934,6 +2400,10 @@ func runReplay(path string) {
 			}
 			rep.Case("proc replay "+rec, true)
 			rep.Note("proc replay: model answers %s (packs with derived pointer fields cannot be rebuilt from a record; re-run the stage with the seed of the replay)", vh.Clip(outs[0], 200))
+		case "route":
+			stageRoute()
+		case "paramkv":
+			stageParamKV()
 		case "pool":
 			stagePool()
 		case "pool2":
@@ -1984,8 +2454,8 @@ func main() {
 	rep.Extra["gates_in_source"] = gates
 
 	if env.Replay != "" {
-		runReplay(env.Replay)
-		knownReplays()
+		runStage("replay", func() { runReplay(env.Replay) })
+		runStage("known", knownReplays)
 		rep.Write(env.Out)
 		return
 	}
@@ -2012,13 +2482,19 @@ func main() {
 		&rtCase{pt: typeByName("UdpTxSqlPack"), ver: 20102, rec: fullRec(typeByName("UdpTxSqlPack"), map[string]string{"Dbc": "s61", "Sql": "s62", "Fetch": "i5"}), tail: nil},
 		&rtCase{pt: typeByName("UdpTxResultSetPack"), ver: 50100, rec: fullRec(typeByName("UdpTxResultSetPack"), map[string]string{"Dbc": "s61", "Sql": "s62", "Fetch": "i7"}), tail: []byte{9}},
 	)
-	stageRT(cases)
-	stageToPack(cases)
-	stageProcess()
-	stagePool()
-	stagePool2()
-	stageMask()
-	stageNum()
-	knownReplays()
+	runStage("rt", func() { stageRT(cases) })
+	runStage("topack", func() { stageToPack(cases) })
+	runStage("proc", stageProcess)
+	runStage("pool", stagePool)
+	runStage("pool2", stagePool2)
+	runStage("route", stageRoute)
+	runStage("mask", stageMask)
+	runStage("paramkv", stageParamKV)
+	runStage("num", stageNum)
+	runStage("known", knownReplays)
+	ctorPanics.Range(func(k, v interface{}) bool {
+		rep.Fail("property", "New"+k.(string)+":panic", fmt.Sprintf("the constructor New%s panics: %v", k, v), map[string]interface{}{"stage": "ctor", "type": k})
+		return true
+	})
 	rep.Write(env.Out)
 }
